@@ -227,7 +227,8 @@ Applies(r, g) == IF IsPoleReg(g) THEN AtPole(r, g)
                  ELSE IF IsZeroReg(g) THEN r.id \in ZeroRels
                  ELSE InDom(r.dom, g) /\ ExactPoint(g) \notin Sing(r.f)
 \* on an argument with a -0.0 part the value may be either limit of a cut: open ends of a range are closed there
-RangeAt(f, g) == LET q == RangeOf(f) IN IF IsNegZero(g) THEN [q EXCEPT !.loClosed = TRUE, !.hiClosed = TRUE] ELSE q
+\* (the -0.0 regions and the point 0, which are evaluated together with their signed-zero twins)
+RangeAt(f, g) == LET q == RangeOf(f) IN IF IsNegZero(g) \/ IsZeroReg(g) THEN [q EXCEPT !.loClosed = TRUE, !.hiClosed = TRUE] ELSE q
 \* evaluations demanded per obligation (single exact points have one)
 MinPointsAt(g) == IF IsZeroReg(g) THEN 1 ELSE 2
 
@@ -264,20 +265,30 @@ PowCases == LET n == 2 * PowZ + 1
 \* amplification bounds of the exact cases (calibrated like Rel.cond)
 SqrtCond == 2
 PowCond == 16
-NOblig == NMatrix + Len(SqrtCases) + Len(PowCases)
+\* soak obligations (call-count dependence): SoakN consecutive guarded calls of each of the 38 functions on fixed inexact
+\* arguments, every result bit-identical to the first call's on the same argument, no panic
+FunSeq == <<"new", "conj", "abs_sqr", "abs", "arg", "zero", "one", "sqrt", "pow", "powf", "exp", "ln", "log", "polar",
+            "sin", "cos", "tan", "sec", "csc", "cot", "asin", "acos", "atan", "asec", "acsc", "acot",
+            "sinh", "cosh", "tanh", "sech", "csch", "coth", "asinh", "acosh", "atanh", "asech", "acsch", "acoth">>
+SoakN == 65536 + 64
+NExact == NMatrix + Len(SqrtCases) + Len(PowCases)
+NOblig == NExact + Len(FunSeq)
 \* the pos-th obligation as a record (uniform fields; unused ones hold defaults)
 Oblig(pos) ==
   IF pos <= NMatrix
     THEN LET p == Matrix[pos]
              r == Rels[p[1]]
          IN [kind |-> "rel", pos |-> pos, ri |-> p[1], gi |-> p[2], rel |-> r, reg |-> Regs[p[2]], range |-> RangeAt(r.f, Regs[p[2]]), cond |-> r.cond, minpts |-> MinPointsAt(Regs[p[2]]),
-             z |-> CZero, k |-> 0, expect |-> CZero]
+             z |-> CZero, k |-> 0, expect |-> CZero, fn |-> "-"]
   ELSE IF pos <= NMatrix + Len(SqrtCases)
     THEN LET w == SqrtCases[pos - NMatrix]
          IN [kind |-> "sqrt_exact", pos |-> pos, ri |-> 0, gi |-> 0, rel |-> Rels[1], reg |-> Regs[1], range |-> RangeOf("sqrt"), cond |-> SqrtCond, minpts |-> 1,
-             z |-> CMul(w, w), k |-> 0, expect |-> PrincipalOfSquare(w)]
-  ELSE LET c == PowCases[pos - NMatrix - Len(SqrtCases)]
+             z |-> CMul(w, w), k |-> 0, expect |-> PrincipalOfSquare(w), fn |-> "-"]
+  ELSE IF pos <= NExact THEN
+       LET c == PowCases[pos - NMatrix - Len(SqrtCases)]
        IN [kind |-> "powk", pos |-> pos, ri |-> 0, gi |-> 0, rel |-> Rels[1], reg |-> Regs[1], range |-> NoRange, cond |-> PowCond, minpts |-> 1,
-           z |-> c.z, k |-> c.k, expect |-> CPow(c.z, c.k)]
+           z |-> c.z, k |-> c.k, expect |-> CPow(c.z, c.k), fn |-> "-"]
+  ELSE [kind |-> "soak", pos |-> pos, ri |-> 0, gi |-> 0, rel |-> Rels[1], reg |-> Regs[1], range |-> NoRange, cond |-> 1, minpts |-> SoakN,
+        z |-> CZero, k |-> 0, expect |-> CZero, fn |-> FunSeq[pos - NExact]]
 
 =============================================================================
